@@ -427,6 +427,65 @@ func (lf *lenFacts) discharge(in ssa.Instruction) (bool, string) {
 }
 
 // clampedWindow: runes[i:end] with end = min(i+size, len), i < len on the path, size > 0 on the path.
+// guardedWindow: x[i : i+c] (c a positive constant) where i is a counter that starts at a non-negative constant and
+// grows by one, on the true edge of `i + (c-1) < len(x)` (or `i + c <= len(x)`) that dominates the slice.
+func (lf *lenFacts) guardedWindow(sl *ssa.Slice) (bool, string) {
+	if sl.Low == nil || sl.High == nil {
+		return false, ""
+	}
+	add, ok := sl.High.(*ssa.BinOp)
+	if !ok || add.Op != token.ADD || add.X != sl.Low {
+		return false, ""
+	}
+	c, ok := constInt(add.Y)
+	if !ok || c <= 0 {
+		return false, ""
+	}
+	if !isIncrementing(sl.Low) {
+		return false, "lower bound is not a counter that grows from a constant"
+	}
+	if lb := intBound(sl.Low, nil, nil, false, 0); lb < 0 {
+		return false, "lower bound may be negative"
+	}
+	for _, d := range lf.fn.Blocks {
+		if !d.Dominates(sl.Block()) {
+			continue
+		}
+		iff, ok := lastIf(d)
+		if !ok {
+			continue
+		}
+		bo, ok := iff.Cond.(*ssa.BinOp)
+		if !ok {
+			continue
+		}
+		onTrue := len(d.Succs) == 2 && len(d.Succs[0].Preds) == 1 && (d.Succs[0] == sl.Block() || d.Succs[0].Dominates(sl.Block()))
+		if !onTrue {
+			continue
+		}
+		a, isLen := lenArg(bo.Y)
+		if !isLen || a != sl.X {
+			continue
+		}
+		// left side: i + k
+		k := int64(0)
+		lhs := bo.X
+		if l, ok := lhs.(*ssa.BinOp); ok && l.Op == token.ADD && l.X == sl.Low {
+			if kk, ok := constInt(l.Y); ok {
+				k = kk
+			} else {
+				continue
+			}
+		} else if lhs != sl.Low {
+			continue
+		}
+		if (bo.Op == token.LSS && k >= c-1) || (bo.Op == token.LEQ && k >= c) {
+			return true, fmt.Sprintf("window [i:i+%d] on the true edge of i+%d %s len(x), i a non-negative counter", c, k, bo.Op)
+		}
+	}
+	return false, "no dominating guard i+c-1 < len(x)"
+}
+
 func (lf *lenFacts) clampedWindow(sl *ssa.Slice) (bool, string) {
 	if sl.Low == nil || sl.High == nil {
 		return false, ""
@@ -521,14 +580,18 @@ func (lf *lenFacts) clampedWindow(sl *ssa.Slice) (bool, string) {
 
 // sliceExceptions: expressions neither the compiler nor the idioms above discharge, confirmed by reading.
 var sliceExceptions = map[string]string{
-	"getItalianRegions:runes[i-1]":          "second region loop starts at i = r1, and r1 is either len(runes) (loop body never runs) or an index+1 ≥ 2 found by the first loop: i ≥ 1 whenever the body runs",
-	"step3_final_vowels:newS[:len(newS)-1]": "newS is s minus its final byte and the branch is entered only when s ends in \"chi\"/\"ghi\": len(newS) ≥ 2",
+	"evaluateBooleanFilter:filter[:opIndex]":         "opIndex is the second result of findFilterOperator(filter), which returns either (\"\", -1) — tested for just above — or an index i of its own scan loop over filter: 0 <= i < len(filter)",
+	"evaluateBooleanFilter:filter[opIndex+len(op):]": "findFilterOperator returns op = filter[i:i+2] (taken under i+1 < len(filter)) or filter[i:i+1] together with that i: opIndex+len(op) <= len(filter)",
+	"getItalianRegions:runes[i-1]":                   "second region loop starts at i = r1, and r1 is either len(runes) (loop body never runs) or an index+1 ≥ 2 found by the first loop: i ≥ 1 whenever the body runs",
+	"step3_final_vowels:newS[:len(newS)-1]":          "newS is s minus its final byte and the branch is entered only when s ends in \"chi\"/\"ghi\": len(newS) ≥ 2",
 }
 
 func ruleGRDslice(w *World, r *Report) {
 	r.Doc("GRD-slice", "every index and slice expression in the tokeniser, stemmers, compressor, splitter and chunker is in bounds on every path: the compiler's prove pass eliminates its bounds check, or a length lower bound from the code's own idioms (HasSuffix/HasPrefix on the true edge, len comparisons, constant re-slicing, []rune of a non-empty string, the clamped window of the chunker) covers it, or it is one of the table exceptions argued by hand", 15)
 	files := map[string]bool{}
-	pkgArgs := []string{"./" + taPkg, "./" + textPkg, "./" + ragPkg}
+	pkgArgs := []string{"./" + taPkg, "./" + textPkg, "./" + ragPkg, "./pkg/core"}
+	// of pkg/core only the request-driven filter parser (strings that come straight from a request)
+	coreFuncs := map[string]bool{"evaluateBooleanFilter": true, "findFilterOperator": true, "FindIDsByFilter": true}
 	for _, rel := range []string{taPkg, textPkg} {
 		if p := w.Pkg(rel); p != nil {
 			for _, f := range p.Syntax {
@@ -542,6 +605,7 @@ func ruleGRDslice(w *World, r *Report) {
 		}
 	}
 	files[ragPkg+"/splitter.go"] = true
+	files["pkg/core/core.go"] = true
 	sites, err := compilerUnprovenBounds(w, pkgArgs)
 	if err != nil {
 		r.Und("GRD-slice", "compiler-bce", "", err.Error())
@@ -555,8 +619,17 @@ func ruleGRDslice(w *World, r *Report) {
 	byPos := map[key][]ssa.Instruction{}
 	fnOf := map[ssa.Instruction]*ssa.Function{}
 	total := 0
-	for _, rel := range []string{taPkg, textPkg, ragPkg} {
+	for _, rel := range []string{taPkg, textPkg, ragPkg, "pkg/core"} {
 		for _, fn := range w.pkgSSAFuncs(rel) {
+			if rel == "pkg/core" {
+				root := fn
+				for root.Parent() != nil {
+					root = root.Parent()
+				}
+				if !coreFuncs[root.Name()] {
+					continue
+				}
+			}
 			for _, b := range fn.Blocks {
 				for _, in := range b.Instrs {
 					switch in.(type) {
@@ -602,6 +675,9 @@ func ruleGRDslice(w *World, r *Report) {
 	for _, s := range rest {
 		ins := byPos[key{s.file, s.line, s.col}]
 		pos := fmt.Sprintf("%s:%d", s.file, s.line)
+		if len(ins) == 0 && s.file == "pkg/core/core.go" {
+			continue // outside the filter parser: not in scope
+		}
 		if len(ins) == 0 {
 			r.Und("GRD-slice", fmt.Sprintf("unmapped:%s", filepath.Base(s.file)), pos, fmt.Sprintf("the compiler reports an unproven %s at column %d that does not map to an index/slice instruction", s.kind, s.col))
 			continue
@@ -624,6 +700,8 @@ func ruleGRDslice(w *World, r *Report) {
 				if sl, isSl := in.(*ssa.Slice); isSl {
 					if ok2, why2 := facts[fn].clampedWindow(sl); ok2 {
 						ok, why = true, why2
+					} else if ok3, why3 := facts[fn].guardedWindow(sl); ok3 {
+						ok, why = true, why3
 					} else if why2 != "" {
 						why = why2
 					}
